@@ -1,0 +1,63 @@
+//! Observation hooks for external runtime monitors.
+//!
+//! Only compiled with the `verif-hooks` cargo feature (off by default). The
+//! hooks never change behaviour: they append events to a thread-local buffer
+//! (when recording is switched on) and let a test harness pin the otherwise
+//! random hash salts used by the serializers.
+
+use std::cell::{Cell, RefCell};
+
+#[derive(Debug, Clone, PartialEq, Eq)]
+pub enum Event {
+    /// a softfork guard was entered (pushed onto the softfork stack)
+    GuardEnter {
+        depth: usize,
+        operator_set: u32,
+        exempt: bool,
+        declared: u64,
+        cost: u64,
+        atoms: usize,
+        pairs: usize,
+        heap: usize,
+    },
+    /// a softfork guard completed (after the allocator was restored and the
+    /// result was replaced)
+    GuardExit {
+        depth: usize,
+        cost: u64,
+        atoms: usize,
+        pairs: usize,
+        heap: usize,
+        result_is_nil: bool,
+    },
+    /// outcome of a GC attempt: 0 = NoReplace, 1 = Replace, 2 = Aborted
+    GcRestore { kind: u8 },
+}
+
+thread_local! {
+    static RECORDING: Cell<bool> = const { Cell::new(false) };
+    static EVENTS: RefCell<Vec<Event>> = const { RefCell::new(Vec::new()) };
+    static SALT: Cell<Option<u64>> = const { Cell::new(None) };
+}
+
+pub fn set_recording(on: bool) {
+    RECORDING.with(|r| r.set(on));
+}
+
+pub fn emit(e: Event) {
+    if RECORDING.with(|r| r.get()) {
+        EVENTS.with(|ev| ev.borrow_mut().push(e));
+    }
+}
+
+pub fn take_events() -> Vec<Event> {
+    EVENTS.with(|ev| std::mem::take(&mut *ev.borrow_mut()))
+}
+
+pub fn set_salt_override(salt: Option<u64>) {
+    SALT.with(|s| s.set(salt));
+}
+
+pub fn salt_override() -> Option<u64> {
+    SALT.with(|s| s.get())
+}
